@@ -15,6 +15,9 @@ def setups(tier):
         ('chain+open_u2+u3', 'u1_chain', 'u3_independent_job',
          [('new_update', 'u1', 't2', 1, 0), ('add_jobs', 'u1', 2, [bf.J(1, abs_parents=[1], abs_group=0)])]),
     ]
+    # update 1 (one job) has already run to completion, so the batch is complete; update 2 adds only a job group
+    s.append(('done1+empty_groups', 'u1_single', 'u2_empty_groups_only',
+              [('sched', 0, 'i1'), ('complete', 1, 'A001xx', 'i1', 'Success', 10, 20)]))
     if tier != 'quick':
         s += [
             ('fork_ar+group_two_bunches', 'u1_fork_ar', 'u2_group_two_bunches', []),
@@ -33,7 +36,7 @@ def check(tier, seed, procs):
     depth = 5 if tier == 'quick' else 8
     res = bf.run(MONITORS, setups(tier), tier, depth, procs, time_budget=55 if tier == 'quick' else 1500)
     cov = bf.coverage(res, f'1 batch, update 1 committed (2-3 jobs, 1-2 nested groups), update 2 submitted step by step '
-                           f'(1-2 jobs, 0-1 groups, 1-2 bunches), 2 pool instances, depth {depth}')
+                           f'(1-2 jobs, 0-1 groups, 1-2 bunches; one setup: batch already complete + group-only update), 2 pool instances, depth {depth}')
     out = {'coverage': cov, 'violations': res.violations, 'assumptions': bf.ASSUME,
            'vacuous': None if res.states > 100 else f'only {res.states} states'}
     return txpairs.merge_into(out, phase)
